@@ -189,6 +189,27 @@ def replay_files(prop_id):
     return sorted(glob.glob(os.path.join(ROOT, 'replays', prop_id, '*.json')))
 
 
+def kernel_knife_edge(case):
+    """True if a wire radius equals 1e-4 wavelength to within 1e-6: the program switches between its thin-wire and
+    its exact kernel at that radius, so on the threshold rounding (of a scaled radius, of the eight printed digits of
+    the frequency) decides which model is solved and any comparison of two solves is meaningless"""
+    try:
+        lam = 299.8 / float(case['f'])
+        scales = case.get('scales') or []
+        g = 1.0
+        for s_ in scales:
+            if s_.get('tag') is None:
+                g *= float(s_['f'])
+        cands = [1.0, g] + [g * float(s_['f']) for s_ in scales if s_.get('tag') is not None]
+        for o in case['objs']:
+            for c in cands:
+                if abs(float(o['r']) * c / (1e-4 * lam) - 1.0) < 1e-6:
+                    return True
+    except Exception:
+        return False
+    return False
+
+
 def evaluate(mod, case):
     """run mod.check(case); returns (Result, None) or (None, text of a harness error).  An exception raised inside
     the program under test (innermost frame in the repository) is a failure of the property being checked (the
@@ -197,6 +218,9 @@ def evaluate(mod, case):
     and is reported as such (exit 2), never as a violation"""
     try:
         annotate(case)
+        if isinstance(case, dict) and 'objs' in case and 'f' in case and not getattr(mod, 'KERNEL_EDGE_IRRELEVANT', False) \
+                and kernel_knife_edge(case):
+            return Result(skipped='knife-edge: a wire radius on the thin / exact kernel threshold of 1e-4 wavelength'), None
         if isinstance(case, dict) and case.get('timing'):
             import io, contextlib
             with contextlib.redirect_stderr(io.StringIO()):        # the program's timing lines
